@@ -294,6 +294,9 @@ func (h *Hist) genVal(target *Node, trees bool) (any, MVal) {
 
 // boundary index: -1, 0, mid, n-1, n, n+1, -n
 func (h *Hist) index(n int) int {
+	if h.d.Draw("idx-far", 12) == 0 {
+		return []int{n + 1000, -1000, math.MaxInt, math.MinInt, n + 7, -n - 1, 1 << 32}[h.d.Draw("idx-far-which", 7)]
+	}
 	switch h.d.Draw("idx-class", 8) {
 	case 0:
 		return -1
@@ -328,7 +331,7 @@ func opNewList(h *Hist) {
 		return
 	}
 	h.begin("NewList", "C05")
-	k := h.d.Draw("n-values", 5)
+	k := h.tail("n-values", 5, 40)
 	var gvs []any
 	n := h.newNode(false, "NewList")
 	n.Pend = &pending{mode: pendFresh, group: h.group}
@@ -399,7 +402,7 @@ func opNewListOf(h *Hist) {
 	}
 	h.begin("NewListOf", "C05")
 	gv, mv := h.genVal(nil, false)
-	c := h.d.Draw("count", 5)
+	c := h.tail("count", 5, 300)
 	n := h.newNode(false, "NewListOf")
 	n.Pend = &pending{mode: pendFresh, group: h.group}
 	for i := 0; i < c; i++ {
@@ -423,7 +426,7 @@ func opNewObject(h *Hist) {
 		return
 	}
 	h.begin("NewObject", "C06")
-	k := h.d.Draw("n-pairs", 4)
+	k := h.tail("n-pairs", 4, 14)
 	var args []any
 	n := h.newNode(true, "NewObject")
 	n.Pend = &pending{mode: pendFresh, group: h.group}
@@ -773,7 +776,7 @@ func opDelete(h *Hist) {
 		valid = i >= 0 && i < cnt
 	default:
 		// several distinct valid indices, unsorted
-		k := 2 + h.d.Draw("delete-k", 2)
+		k := 2 + h.tail("delete-k", 2, 10)
 		if k > cnt {
 			k = cnt
 		}
@@ -1716,8 +1719,8 @@ func opSet(h *Hist) {
 	}
 	h.begin("Set", "C06")
 	o := n.object()
-	k := 1 + h.d.Draw("n-pairs", 3)
-	if len(n.Fields)+k > h.maxSlots {
+	k := 1 + h.tail("n-pairs", 3, 12)
+	if len(n.Fields)+k > h.maxSlots+16 {
 		k = 1
 	}
 	if h.d.Draw("set-empty", 10) == 0 {
@@ -1824,7 +1827,7 @@ func opUnset(h *Hist) {
 		return
 	}
 	h.begin("Unset", "C06")
-	k := h.d.Draw("n-keys", 4)
+	k := h.tail("n-keys", 4, 10)
 	var keys []string
 	for i := 0; i < k; i++ {
 		if len(n.Fields) > 0 && h.d.Draw("unset-present", 3) > 0 {
@@ -1906,7 +1909,7 @@ func opPluck(h *Hist) {
 		return
 	}
 	h.begin("Pluck", "C06", "C09")
-	k := h.d.Draw("n-keys", 4)
+	k := h.tail("n-keys", 4, 10)
 	var keys []string
 	valid := true
 	for i := 0; i < k; i++ {
@@ -1923,7 +1926,14 @@ func opPluck(h *Hist) {
 		}
 	}
 	var o at.Object
-	p, msg := h.call(func() { o = n.object().Pluck(keys...) })
+	passed := append([]string(nil), keys...)
+	p, msg := h.call(func() { o = n.object().Pluck(passed...) })
+	for i := range keys {
+		if passed[i] != keys[i] {
+			h.fail("argument-changed", "Pluck", []string{"C09"}, fmt.Sprintf("%s.Pluck(%q) modified the slice of keys it was given: now %q", n.Name, keys, passed))
+			return
+		}
+	}
 	h.tracef("%s.Pluck(%q) valid=%v panicked=%v", n.Name, keys, valid, p)
 	if !valid {
 		h.counters["fault:key-absent"]++
@@ -2539,4 +2549,12 @@ func opBurst(h *Hist) {
 	}
 	h.curOp = "Burst"
 	h.heapCheck()
+}
+
+// tail draws a small count, occasionally a much larger one (bounds of "typical" argument counts are where bulk paths start).
+func (h *Hist) tail(label string, small int, big int) int {
+	if h.d.Draw(label+"-tail", 10) == 0 {
+		return small + h.d.Draw(label+"-big", big)
+	}
+	return h.d.Draw(label, small)
 }
